@@ -412,10 +412,10 @@ Proof.
   destruct (contains "QTY" (odisplay o)) eqn:C; [right; auto|left; reflexivity].
 Qed.
 
-(* an IndexedSymbol without its index prints as its display name too *)
+(* an IndexedSymbol without its index, and a Function that is not applied, print as their display names too *)
 Theorem printing_bare_uses_display o :
-  okind o = KIndexed -> pp_bare o = PText (odisplay o).
-Proof. intros K. unfold pp_bare, pp_name. rewrite K. reflexivity. Qed.
+  okind o = KIndexed \/ okind o = KFunction -> pp_bare o = PText (odisplay o).
+Proof. intros [K|K]; unfold pp_bare, pp_name; rewrite K; reflexivity. Qed.
 
 Definition given_display (o : sop) : option string :=
   match o with
